@@ -1,13 +1,196 @@
 /-
-  VProofs.FedCheckChain — VerifyEventAuthChain against a table provider: the depth-first stack loop verifies
-  exactly the events reachable from the root through resolvable auth event IDs.
+  VProofs.FedCheckChain — VerifyEventAuthChain against a provider that answers from a table of events keyed by
+  their own IDs (`TableLike`: single-ID requests are answered exactly, a batch answer may LEAVE OUT events —
+  a provider that hands out at most k events per call, say): the depth-first stack loop verifies exactly the
+  events reachable from the root through resolvable auth event IDs, whichever request (the batch request of
+  VerifyEventAuthChain or the single-ID retry inside checkAllowedByAuthEvents) obtained them.
 -/
 import VProofs.FedCheck
+import VProofs.FedCheckLog
 namespace V.FedCheck
 open V V.FedCheck.Spec
 
+/-! ### the calls checkAllowedByAuthEvents makes -/
+
+def Step.log {P} : Step P → Log
+  | .next _ _ l => l
+  | .fail _ l => l
+  | .outOfFuel _ l => l
+
+theorem Step.log_pre {P} (l : Log) (s : Step P) : (s.pre l).log = l ++ s.log := by
+  cases s <;> rfl
+
+/-- the shape of one step of the loop under the contract -/
+theorem stepC_shape {P} (O : Oracles P) (p : EventProvider) (ae : Bytes) (m : IdMap) (acc : P) (log : Log) :
+    (m.lookup ae = none → ∃ acc1, stepC O (some p) ae m acc log =
+        .next ((ae, provided (some p) ae) :: m) acc1 (log ++ [Call.events [ae]])) ∧
+    (∀ v, m.lookup ae = some v → (∃ acc1, stepC O (some p) ae m acc log = .next m acc1 log) ∨
+        stepC O (some p) ae m acc log = .fail m log) := by
+  unfold stepC
+  refine ⟨fun h => ?_, fun v h => ?_⟩
+  · simp only [h]
+    exact ⟨_, rfl⟩
+  · simp only [h]
+    cases v with
+    | none => exact Or.inl ⟨_, rfl⟩
+    | some a =>
+      simp only
+      by_cases hs : a.stateKey.isSome = true
+      · left; exact ⟨O.add acc a, by simp [hs]⟩
+      · right; simp [hs]
+
+/-- Under the contract (every retry loop behaves as `stepC`) the loop over the auth event IDs asks the provider
+    exactly for the IDs that are absent from the map at entry: every call is such a single-ID request, and
+    when the loop runs to its end every such ID was asked for. -/
+theorem loopAE_calls {P} (O : Oracles P) (p : EventProvider) (fuel : Nat)
+    (hstep : ∀ ae m acc log, retryAE O (some p) ae fuel m acc log = stepC O (some p) ae m acc log)
+    (ids : List Bytes) (m : IdMap) (acc : P) :
+    (∀ c ∈ (loopAE O (some p) fuel ids m acc []).log, ∃ id ∈ ids, c = Call.events [id] ∧ m.lookup id = none) ∧
+    (∀ m' acc' calls, loopAE O (some p) fuel ids m acc [] = .next m' acc' calls →
+      ∀ id ∈ ids, m.lookup id = none → Call.events [id] ∈ calls) := by
+  induction ids generalizing m acc with
+  | nil =>
+    refine ⟨fun c hc => ?_, fun m' acc' calls _ id hid => ?_⟩
+    · simp [loopAE, Step.log] at hc
+    · cases hid
+  | cons ae rest ih =>
+    unfold loopAE
+    rw [hstep]
+    obtain ⟨hnone, hsome⟩ := stepC_shape O p ae m acc []
+    cases hl : m.lookup ae with
+    | some v =>
+      rcases hsome v hl with ⟨acc1, hs⟩ | hs
+      · rw [hs]
+        simp only
+        obtain ⟨ih1, ih2⟩ := ih m acc1
+        refine ⟨fun c hc => ?_, fun m' acc' calls h id hid hnone' => ?_⟩
+        · obtain ⟨id, hid, h1, h2⟩ := ih1 c hc
+          exact ⟨id, List.mem_cons_of_mem _ hid, h1, h2⟩
+        · rcases List.mem_cons.mp hid with h' | h'
+          · subst h'; rw [hl] at hnone'; cases hnone'
+          · exact ih2 m' acc' calls h id h' hnone'
+      · rw [hs]
+        refine ⟨fun c hc => ?_, fun m' acc' calls h => ?_⟩
+        · simp [Step.log] at hc
+        · cases h
+    | none =>
+      obtain ⟨acc1, hs⟩ := hnone hl
+      rw [hs]
+      simp only
+      -- one call for `ae`, then the rest of the loop on the extended map
+      rw [loopAE_log O (some p) fuel rest ((ae, provided (some p) ae) :: m) acc1 ([] ++ [Call.events [ae]])]
+      obtain ⟨ih1, ih2⟩ := ih ((ae, provided (some p) ae) :: m) acc1
+      have back : ∀ id, ((ae, provided (some p) ae) :: m).lookup id = none → m.lookup id = none := by
+        intro id h
+        by_cases hid : id = ae
+        · subst hid; rw [lookup_cons_self] at h; cases h
+        · rw [lookup_cons_ne _ _ hid] at h; exact h
+      refine ⟨fun c hc => ?_, fun m' acc' calls h id hid hnone' => ?_⟩
+      · rw [Step.log_pre] at hc
+        rcases List.mem_append.mp hc with h | h
+        · have : c = Call.events [ae] := by simpa using h
+          exact ⟨ae, List.mem_cons_self, this, hl⟩
+        · obtain ⟨id, hid, h1, h2⟩ := ih1 c h
+          exact ⟨id, List.mem_cons_of_mem _ hid, h1, back id h2⟩
+      · cases hr : loopAE O (some p) fuel rest ((ae, provided (some p) ae) :: m) acc1 [] with
+        | next m2 acc2 calls2 =>
+          rw [hr] at h
+          simp only [Step.pre, Step.next.injEq] at h
+          obtain ⟨_, _, hcalls⟩ := h
+          rw [← hcalls]
+          by_cases hid' : id = ae
+          · subst hid'; simp
+          · rcases List.mem_cons.mp hid with h' | h'
+            · exact absurd h' hid'
+            · apply List.mem_append_right
+              exact ih2 m2 acc2 calls2 hr id h' (by rw [lookup_cons_ne _ _ hid']; exact hnone')
+        | fail m2 calls2 => rw [hr] at h; simp [Step.pre] at h
+        | outOfFuel m2 calls2 => rw [hr] at h; simp [Step.pre] at h
+
+/-- the same for checkAllowedByAuthEvents run on an empty log -/
+theorem checkAllowed_calls {P} (O : Oracles P) (p : EventProvider) (fuel : Nat)
+    (hstep : ∀ ae m acc log, retryAE O (some p) ae fuel m acc log = stepC O (some p) ae m acc log)
+    (e : Event) (m : IdMap) :
+    (∀ c ∈ (checkAllowed O (some p) fuel e m []).2.2, ∃ id ∈ e.authEventIDs, c = Call.events [id] ∧ m.lookup id = none) ∧
+    ((checkAllowed O (some p) fuel e m []).1 = .ok →
+      ∀ id ∈ e.authEventIDs, m.lookup id = none → Call.events [id] ∈ (checkAllowed O (some p) fuel e m []).2.2) := by
+  obtain ⟨h1, h2⟩ := loopAE_calls O p fuel hstep e.authEventIDs m O.empty
+  unfold checkAllowed
+  cases hr : loopAE O (some p) fuel e.authEventIDs m O.empty [] with
+  | next m' acc calls =>
+    rw [hr] at h1
+    refine ⟨fun c hc => h1 c hc, fun _ id hid hnone => h2 m' acc calls hr id hid hnone⟩
+  | fail m' calls =>
+    rw [hr] at h1
+    refine ⟨fun c hc => h1 c hc, fun h => ?_⟩
+    cases h
+  | outOfFuel m' calls =>
+    rw [hr] at h1
+    refine ⟨fun c hc => h1 c hc, fun h => ?_⟩
+    cases h
+
+theorem mem_handedOut (prov : EventProvider) (calls : Log) (x : Event) :
+    x ∈ handedOut prov calls ↔ ∃ ids es, Call.events ids ∈ calls ∧ prov ids = .events es ∧ x ∈ es := by
+  induction calls with
+  | nil => simp [handedOut]
+  | cons c rest ih =>
+    cases c with
+    | events ids =>
+      unfold handedOut
+      rw [List.mem_append, ih]
+      constructor
+      · rintro (h | ⟨ids', es, h1, h2, h3⟩)
+        · cases hp : prov ids with
+          | error => rw [hp] at h; cases h
+          | events es => rw [hp] at h; exact ⟨ids, es, List.mem_cons_self, hp, h⟩
+        · exact ⟨ids', es, List.mem_cons_of_mem _ h1, h2, h3⟩
+      · rintro ⟨ids', es, h1, h2, h3⟩
+        rcases List.mem_cons.mp h1 with h | h
+        · cases h
+          left; rw [h2]; exact h3
+        · right; exact ⟨ids', es, h, h2, h3⟩
+    | stateIDs ev =>
+      unfold handedOut
+      rw [ih]
+      constructor
+      · rintro ⟨ids', es, h1, h2, h3⟩; exact ⟨ids', es, List.mem_cons_of_mem _ h1, h2, h3⟩
+      · rintro ⟨ids', es, h1, h2, h3⟩
+        rcases List.mem_cons.mp h1 with h | h
+        · cases h
+        · exact ⟨ids', es, h, h2, h3⟩
+    | state ev =>
+      unfold handedOut
+      rw [ih]
+      constructor
+      · rintro ⟨ids', es, h1, h2, h3⟩; exact ⟨ids', es, List.mem_cons_of_mem _ h1, h2, h3⟩
+      · rintro ⟨ids', es, h1, h2, h3⟩
+        rcases List.mem_cons.mp h1 with h | h
+        · cases h
+        · exact ⟨ids', es, h, h2, h3⟩
+    | backfill i =>
+      unfold handedOut
+      rw [ih]
+      constructor
+      · rintro ⟨ids', es, h1, h2, h3⟩; exact ⟨ids', es, List.mem_cons_of_mem _ h1, h2, h3⟩
+      · rintro ⟨ids', es, h1, h2, h3⟩
+        rcases List.mem_cons.mp h1 with h | h
+        · cases h
+        · exact ⟨ids', es, h, h2, h3⟩
+
 section
 variable {P : Type} (O : Oracles P) (root : Event) (table : Bytes → Option Event) (errs : Bytes → Bool)
+
+/-- The provider answers from `table` (`errs id`: a request naming `id` fails as a whole): a single-ID request
+    is answered exactly; a batch answer consists of table events for requested IDs but MAY LEAVE SOME OUT
+    (at most k events per call …) — except events without a state key, which the code treats differently
+    when they arrive in a batch (AddEvent error) and in a retry (ignored): those are never left out. -/
+structure TableLike (prov : EventProvider) : Prop where
+  err_iff : ∀ ids, prov ids = .error ↔ ids.any errs = true
+  sub : ∀ ids es, prov ids = .events es → ∀ e ∈ es, ∃ id ∈ ids, table id = some e
+  single : ∀ id, errs id = false → prov [id] = .events (match table id with
+    | some e => [e]
+    | none => [])
+  nonstate : ∀ ids es id e, prov ids = .events es → id ∈ ids → table id = some e → e.stateKey.isNone = true → e ∈ es
 
 theorem tableProvider_single (id : Bytes) :
     tableProvider table errs [id] = if errs id then .error else .events (match table id with
@@ -16,19 +199,71 @@ theorem tableProvider_single (id : Bytes) :
   unfold tableProvider
   cases he : errs id <;> cases ht : table id <;> simp [he, ht]
 
-theorem provided_table (id : Bytes) :
-    provided (some (tableProvider table errs)) id =
+/-- the complete table provider is table-like -/
+theorem tableProvider_tableLike : TableLike table errs (tableProvider table errs) := by
+  refine ⟨fun ids => ?_, fun ids es h e he => ?_, fun id he => ?_, fun ids es id e h hid ht _ => ?_⟩
+  · unfold tableProvider
+    cases ha : ids.any errs <;> simp
+  · unfold tableProvider at h
+    cases ha : ids.any errs
+    · simp only [ha, Bool.false_eq_true, if_false, ProvAns.events.injEq] at h
+      rw [← h] at he
+      exact List.mem_filterMap.mp he
+    · simp [ha] at h
+  · rw [tableProvider_single, he]; rfl
+  · unfold tableProvider at h
+    cases ha : ids.any errs
+    · simp only [ha, Bool.false_eq_true, if_false, ProvAns.events.injEq] at h
+      rw [← h]
+      exact List.mem_filterMap.mpr ⟨id, hid, ht⟩
+    · simp [ha] at h
+
+/-- a provider that hands out at most `k` events per call -/
+def capProvider (k : Nat) : EventProvider :=
+  fun ids => if ids.any errs then .error else .events ((ids.filterMap table).take k)
+
+/-- … is table-like when k ≥ 1 and the table holds state events only -/
+theorem capProvider_tableLike (k : Nat) (hstate : ∀ id e, table id = some e → e.stateKey.isSome = true) :
+    TableLike table errs (capProvider table errs (k + 1)) := by
+  refine ⟨fun ids => ?_, fun ids es h e he => ?_, fun id he => ?_, fun ids es id e h hid ht hns => ?_⟩
+  · unfold capProvider
+    cases ha : ids.any errs <;> simp
+  · unfold capProvider at h
+    cases ha : ids.any errs
+    · simp only [ha, Bool.false_eq_true, if_false, ProvAns.events.injEq] at h
+      rw [← h] at he
+      exact List.mem_filterMap.mp (List.mem_of_mem_take he)
+    · simp [ha] at h
+  · unfold capProvider
+    cases ht : table id <;> simp [he, ht]
+  · have := hstate id e ht
+    cases hs : e.stateKey <;> simp_all
+
+variable {prov : EventProvider}
+
+theorem single_eq (htl : TableLike table errs prov) (id : Bytes) :
+    prov [id] = if errs id then .error else .events (match table id with
+      | some e => [e]
+      | none => []) := by
+  cases he : errs id
+  · simp only [Bool.false_eq_true, if_false]; exact htl.single id he
+  · simp only [if_true]
+    exact (htl.err_iff [id]).mpr (by simp [he])
+
+theorem provided_table (htl : TableLike table errs prov) (id : Bytes) :
+    provided (some prov) id =
       if errs id then none else match table id with
         | some e => if e.stateKey.isSome then some e else none
         | none => none := by
   unfold provided
-  simp only [tableProvider_single]
+  simp only [single_eq table errs htl]
   cases he : errs id <;> cases ht : table id <;> simp
 
-theorem tableProvider_ok (htable : ∀ id e, table id = some e → e.eventID = id) : ProvOK (some (tableProvider table errs)) := by
+theorem tableLike_ok (htl : TableLike table errs prov) (htable : ∀ id e, table id = some e → e.eventID = id) :
+    ProvOK (some prov) := by
   intro p hp id
   cases hp
-  rw [tableProvider_single]
+  rw [single_eq table errs htl]
   cases he : errs id
   · cases ht : table id with
     | none => right; left; simp
@@ -51,37 +286,29 @@ theorem chainResolve_self (htable : ∀ id e, table id = some e → e.eventID = 
 
 /-! ### putAll -/
 
-theorem putAll_lookup_other (es : List Event) (m : IdMap) (id : Bytes) (h : ∀ e ∈ es, e.eventID ≠ id) :
-    (putAll es m).lookup id = m.lookup id := by
+/-- the map after a batch of table events was put in -/
+theorem putAll_lookup (es : List Event) (hes : ∀ e ∈ es, table e.eventID = some e) (m : IdMap) (id : Bytes) :
+    (putAll es m).lookup id = if es.any (fun e => e.eventID == id) then (table id).map some else m.lookup id := by
   induction es generalizing m with
   | nil => rfl
   | cons x xs ih =>
     unfold putAll
-    rw [ih _ (fun e he => h e (List.mem_cons_of_mem _ he))]
-    exact lookup_cons_ne _ _ (fun h' => h x List.mem_cons_self h'.symm)
-
-theorem putAll_lookup_mem (es : List Event) (m : IdMap) (id : Bytes) (e : Event) (he : e ∈ es) (hid : e.eventID = id)
-    (huniq : ∀ e' ∈ es, e'.eventID = id → e' = e) : (putAll es m).lookup id = some (some e) := by
-  induction es generalizing m with
-  | nil => cases he
-  | cons x xs ih =>
-    unfold putAll
-    by_cases hx : e ∈ xs
-    · exact ih _ hx (fun e' he' => huniq e' (List.mem_cons_of_mem _ he'))
-    · have hex : e = x := by
-        rcases List.mem_cons.mp he with h | h
-        · exact h
-        · exact absurd h hx
-      subst hex
-      rw [putAll_lookup_other xs _ id (fun e' he' hid' => hx (huniq e' (List.mem_cons_of_mem _ he') hid' ▸ he'))]
-      rw [← hid]
-      exact lookup_cons_self _ _ _
+    rw [ih (fun e he => hes e (List.mem_cons_of_mem _ he))]
+    by_cases hany : xs.any (fun e => e.eventID == id) = true
+    · simp [hany]
+    · simp only [hany, Bool.false_eq_true, if_false, List.any_cons, Bool.or_false]
+      by_cases hx : id = x.eventID
+      · subst hx
+        simp [lookup_cons_self, hes x List.mem_cons_self]
+      · have : (x.eventID == id) = false := by simpa using fun h => hx h.symm
+        simp [this, lookup_cons_ne _ _ hx]
 
 /-! ### the loop invariant -/
 
 structure ChainInv (st : ChainSt) : Prop where
   rootIn : st.m.lookup root.eventID = some (some root)
   mapOK : ∀ id e, st.m.lookup id = some (some e) → chainResolve root table id = some e ∧ (id = root.eventID ∨ errs id = false)
+  nilOK : ∀ id, st.m.lookup id = some none → table id = none
   pending : ∀ id e, st.m.lookup id = some (some e) → e.eventID ∈ st.verified ∨ e ∈ st.stack
   stackOK : ∀ e ∈ st.stack, chainResolve root table e.eventID = some e ∧ Reach root table e
   verifiedOK : ∀ id ∈ st.verified, ∃ e, chainResolve root table id = some e ∧ chainGood O root table errs e = true ∧
@@ -90,13 +317,19 @@ structure ChainInv (st : ChainSt) : Prop where
 
 theorem chainInv_init : ChainInv O root table errs { stack := [root], m := [(root.eventID, some root)], verified := [] } := by
   have hres : chainResolve root table root.eventID = some root := by simp [chainResolve]
-  refine { rootIn := lookup_cons_self _ _ _, mapOK := fun id e h => ?_, pending := fun id e h => ?_, stackOK := fun e he => ?_,
-           verifiedOK := fun id h => ?_, rootSeen := Or.inr (List.mem_singleton.mpr rfl) }
+  refine { rootIn := lookup_cons_self _ _ _, mapOK := fun id e h => ?_, nilOK := fun id h => ?_, pending := fun id e h => ?_,
+           stackOK := fun e he => ?_, verifiedOK := fun id h => ?_, rootSeen := Or.inr (List.mem_singleton.mpr rfl) }
   · by_cases hid : id = root.eventID
     · subst hid
       rw [lookup_cons_self] at h
       cases h
       exact ⟨hres, Or.inl rfl⟩
+    · rw [lookup_cons_ne _ _ hid] at h
+      cases h
+  · by_cases hid : id = root.eventID
+    · subst hid
+      rw [lookup_cons_self] at h
+      cases h
     · rw [lookup_cons_ne _ _ hid] at h
       cases h
   · by_cases hid : id = root.eventID
@@ -110,42 +343,6 @@ theorem chainInv_init : ChainInv O root table errs { stack := [root], m := [(roo
     subst this
     exact ⟨hres, Reach.root⟩
   · cases h
-
-/-- the map after the batch fetch -/
-theorem fetched_lookup (htable : ∀ id e, table id = some e → e.eventID = id) (m : IdMap) (need : List Bytes) (id : Bytes) :
-    (putAll (need.filterMap table) m).lookup id =
-      if id ∈ need then (match table id with
-        | some e => some (some e)
-        | none => m.lookup id) else m.lookup id := by
-  have hmem : ∀ e, e ∈ need.filterMap table ↔ ∃ i ∈ need, table i = some e := fun e => List.mem_filterMap
-  by_cases hin : id ∈ need
-  · simp only [hin, if_true]
-    cases ht : table id with
-    | some e =>
-      simp only
-      apply putAll_lookup_mem _ _ _ e ((hmem e).mpr ⟨id, hin, ht⟩) (htable id e ht)
-      intro e' he' hid'
-      obtain ⟨i, _, hi⟩ := (hmem e').mp he'
-      have : i = id := by rw [← htable i e' hi, hid']
-      subst this
-      rw [ht] at hi
-      cases hi; rfl
-    | none =>
-      simp only
-      apply putAll_lookup_other
-      intro e he hid'
-      obtain ⟨i, _, hi⟩ := (hmem e).mp he
-      have : i = id := by rw [← htable i e hi, hid']
-      subst this
-      rw [ht] at hi
-      cases hi
-  · simp only [hin, if_false]
-    apply putAll_lookup_other
-    intro e he hid'
-    obtain ⟨i, hi_in, hi⟩ := (hmem e).mp he
-    have : i = id := by rw [← htable i e hi, hid']
-    subst this
-    exact hin hi_in
 
 theorem foldl_accStep_congr_on (r1 r2 : Bytes → Option Event) (ids : List Bytes) (acc : P)
     (h : ∀ id ∈ ids, r1 id = r2 id) : ids.foldl (accStep O r1) acc = ids.foldl (accStep O r2) acc := by
@@ -173,15 +370,47 @@ theorem isNilIn_true {m : IdMap} {id : Bytes} (h : isNilIn m id = true) : m.look
     | none => exact Or.inr rfl
     | some e => simp [hl] at h
 
+/-- what a successful batch fetch returned: table events for needed IDs; no event without a state key left out -/
+structure Fetched (need : List Bytes) (es : List Event) : Prop where
+  fromTable : ∀ e ∈ es, e.eventID ∈ need ∧ table e.eventID = some e
+  nonstate : ∀ id ∈ need, ∀ e, table id = some e → e.stateKey.isNone = true → e ∈ es
+
+theorem fetchNeeded_table (htl : TableLike table errs prov) (htable : ∀ id e, table id = some e → e.eventID = id)
+    (need : List Bytes) (log : Log) :
+    (need.any errs = true ∧ fetchNeeded prov need log = none) ∨
+    (need.any errs = false ∧ ∃ es log1, fetchNeeded prov need log = some (es, log1) ∧ Fetched table need es) := by
+  unfold fetchNeeded
+  by_cases hn : need.isEmpty = true
+  · right
+    have : need = [] := by simpa using hn
+    subst this
+    exact ⟨rfl, [], log, by simp, Fetched.mk (fun e he => by cases he) (fun id hid => by cases hid)⟩
+  · simp only [hn, Bool.false_eq_true, if_false]
+    cases hp : prov need with
+    | error => left; exact ⟨(htl.err_iff need).mp hp, rfl⟩
+    | events es =>
+      right
+      have hne : need.any errs = false := by
+        cases ha : need.any errs
+        · rfl
+        · rw [(htl.err_iff need).mpr ha] at hp; cases hp
+      refine ⟨hne, es, log ++ [Call.events need], rfl, Fetched.mk (fun e he => ?_) (fun id hid e ht hns => htl.nonstate need es id e hp hid ht hns)⟩
+      obtain ⟨id, hid, ht⟩ := htl.sub need es hp e he
+      have := htable id e ht
+      subst this
+      exact ⟨hid, ht⟩
+
 /-- how the auth event IDs of `curr` resolve in the map after a successful batch fetch -/
-theorem resolved_after_fetch (htable : ∀ id e, table id = some e → e.eventID = id) (st : ChainSt) (hinv : ChainInv O root table errs st)
-    (curr : Event) (hfetch : (needOf st.m curr).any errs = false) (id : Bytes) (hid : id ∈ curr.authEventIDs) :
-    resM (some (tableProvider table errs)) (putAll ((needOf st.m curr).filterMap table) st.m) id = chainResolve root table id ∧
-    badIn (putAll ((needOf st.m curr).filterMap table) st.m) id = (match chainResolve root table id with
+theorem resolved_after_fetch (htl : TableLike table errs prov) (htable : ∀ id e, table id = some e → e.eventID = id)
+    (st : ChainSt) (hinv : ChainInv O root table errs st)
+    (curr : Event) (hfetch : (needOf st.m curr).any errs = false) (es : List Event) (hes : Fetched table (needOf st.m curr) es)
+    (id : Bytes) (hid : id ∈ curr.authEventIDs) :
+    resM (some prov) (putAll es st.m) id = chainResolve root table id ∧
+    badIn (putAll es st.m) id = (match chainResolve root table id with
       | some a => a.stateKey.isNone
       | none => false) ∧
     ((id == root.eventID) = true ∨ errs id = false) := by
-  have hl := fetched_lookup table htable st.m (needOf st.m curr) id
+  have hl := putAll_lookup table es (fun e he => (hes.fromTable e he).2) st.m id
   by_cases hn : isNilIn st.m id = true
   · have hin : id ∈ needOf st.m curr := by unfold needOf; exact List.mem_filter.mpr ⟨hid, hn⟩
     have hne : id ≠ root.eventID := by
@@ -195,20 +424,37 @@ theorem resolved_after_fetch (htable : ∀ id e, table id = some e → e.eventID
       unfold chainResolve
       have : (id == root.eventID) = false := by simpa using hne
       simp [this]
-    simp only [hin, if_true] at hl
     rw [hres]
     unfold resM badIn
     rw [hl]
-    cases ht : table id with
-    | some e => exact ⟨rfl, rfl, Or.inr herr⟩
-    | none =>
-      simp only
+    by_cases hany : es.any (fun e => e.eventID == id) = true
+    · simp only [hany, if_true]
+      obtain ⟨e, he, heid⟩ := List.any_eq_true.mp hany
+      have heid' : e.eventID = id := by simpa using heid
+      have ht : table id = some e := by rw [← heid']; exact (hes.fromTable e he).2
+      rw [ht]
+      exact ⟨rfl, rfl, Or.inr herr⟩
+    · simp only [hany, Bool.false_eq_true, if_false]
+      have hnot : ∀ e, table id = some e → e ∉ es := by
+        intro e ht he
+        apply hany
+        exact List.any_eq_true.mpr ⟨e, he, by simp [htable id e ht]⟩
       rcases isNilIn_true hn with h0 | h0
       · rw [h0]
         simp only
-        rw [provided_table, ht]
-        exact ⟨by simp [herr], trivial, Or.inr herr⟩
+        rw [provided_table table errs htl, herr]
+        cases ht : table id with
+        | none => exact ⟨by simp, rfl, Or.inr (by simp)⟩
+        | some e =>
+          have hstate : e.stateKey.isSome = true := by
+            cases hs : e.stateKey with
+            | some sk => rfl
+            | none => exact absurd (hes.nonstate id hin e ht (by simp [hs])) (hnot e ht)
+          refine ⟨by simp [hstate], ?_, Or.inr (by simp)⟩
+          simp only
+          cases hs : e.stateKey <;> simp_all
       · rw [h0]
+        rw [hinv.nilOK id h0]
         exact ⟨rfl, rfl, Or.inr herr⟩
   · have hn' : isNilIn st.m id = false := by simpa using hn
     obtain ⟨e, he⟩ := isNilIn_false hn'
@@ -218,7 +464,14 @@ theorem resolved_after_fetch (htable : ∀ id e, table id = some e → e.eventID
       have := (List.mem_filter.mp h).2
       rw [hn'] at this
       cases this
-    simp only [hnin, if_false] at hl
+    have hany : es.any (fun e => e.eventID == id) = false := by
+      rw [List.any_eq_false]
+      intro x hx heq
+      have hxid : x.eventID = id := by simpa using heq
+      have := (hes.fromTable x hx).1
+      rw [hxid] at this
+      exact hnin this
+    simp only [hany, Bool.false_eq_true, if_false] at hl
     obtain ⟨hres, herr⟩ := hinv.mapOK id e he
     unfold resM badIn
     rw [hl, he, hres]
@@ -228,17 +481,16 @@ theorem resolved_after_fetch (htable : ∀ id e, table id = some e → e.eventID
     · right; exact h
 
 /-- after a successful batch fetch, checkAllowedByAuthEvents accepts `curr` exactly when it is `chainGood` -/
-theorem verdict_iff_chainGood (htable : ∀ id e, table id = some e → e.eventID = id) (st : ChainSt) (hinv : ChainInv O root table errs st)
-    (curr : Event) (hfetch : (needOf st.m curr).any errs = false) :
-    (caVerdict O (some (tableProvider table errs)) curr (putAll ((needOf st.m curr).filterMap table) st.m) = .ok ↔
-      chainGood O root table errs curr = true) ∧
-    caVerdict O (some (tableProvider table errs)) curr (putAll ((needOf st.m curr).filterMap table) st.m) ≠ .outOfFuel := by
-  have hr := resolved_after_fetch O root table errs htable st hinv curr hfetch
-  have hauth : authOf O (resM (some (tableProvider table errs)) (putAll ((needOf st.m curr).filterMap table) st.m)) curr
-      = authOf O (chainResolve root table) curr := by
+theorem verdict_iff_chainGood (htl : TableLike table errs prov) (htable : ∀ id e, table id = some e → e.eventID = id)
+    (st : ChainSt) (hinv : ChainInv O root table errs st)
+    (curr : Event) (hfetch : (needOf st.m curr).any errs = false) (es : List Event) (hes : Fetched table (needOf st.m curr) es) :
+    (caVerdict O (some prov) curr (putAll es st.m) = .ok ↔ chainGood O root table errs curr = true) ∧
+    caVerdict O (some prov) curr (putAll es st.m) ≠ .outOfFuel := by
+  have hr := resolved_after_fetch O root table errs htl htable st hinv curr hfetch es hes
+  have hauth : authOf O (resM (some prov) (putAll es st.m)) curr = authOf O (chainResolve root table) curr := by
     unfold authOf
     exact foldl_accStep_congr_on O _ _ _ _ (fun id hid => (hr id hid).1)
-  have hbad : curr.authEventIDs.any (badIn (putAll ((needOf st.m curr).filterMap table) st.m)) =
+  have hbad : curr.authEventIDs.any (badIn (putAll es st.m)) =
       !curr.authEventIDs.all (fun id => match chainResolve root table id with
         | some a => a.stateKey.isSome
         | none => true) := by
@@ -271,21 +523,6 @@ theorem verdict_iff_chainGood (htable : ∀ id e, table id = some e → e.eventI
   · simp
   · cases h2 : O.allowedBy curr (authOf O (chainResolve root table) curr) <;> simp
 
-theorem fetchNeeded_table (need : List Bytes) (log : Log) :
-    (need.any errs = true ∧ fetchNeeded (tableProvider table errs) need log = none) ∨
-    (need.any errs = false ∧ ∃ log1, fetchNeeded (tableProvider table errs) need log = some (need.filterMap table, log1)) := by
-  unfold fetchNeeded
-  by_cases hn : need.isEmpty = true
-  · right
-    have : need = [] := by simpa using hn
-    subst this
-    exact ⟨rfl, log, by simp⟩
-  · simp only [hn, Bool.false_eq_true, if_false]
-    unfold tableProvider
-    cases he : need.any errs
-    · right; exact ⟨rfl, log ++ [Call.events need], by simp [he]⟩
-    · left; exact ⟨rfl, by simp [he]⟩
-
 /-- what one iteration of the loop establishes -/
 def StepPost (st : ChainSt) : ChainStep → Prop
   | .done .ok _ => st.stack = []
@@ -294,9 +531,9 @@ def StepPost (st : ChainSt) : ChainStep → Prop
   | .done .authFail _ => ∃ e, Reach root table e ∧ chainGood O root table errs e = false
   | .cont st' _ => ChainInv O root table errs st'
 
-theorem chainStep_post (hidem : AddIdem O) (htable : ∀ id e, table id = some e → e.eventID = id) (n : Nat)
-    (st : ChainSt) (log : Log) (hinv : ChainInv O root table errs st) :
-    StepPost O root table errs st (chainStep O (tableProvider table errs) (n + 2) st log) := by
+theorem chainStep_post (hidem : AddIdem O) (htl : TableLike table errs prov) (htable : ∀ id e, table id = some e → e.eventID = id)
+    (n : Nat) (st : ChainSt) (log : Log) (hinv : ChainInv O root table errs st) :
+    StepPost O root table errs st (chainStep O prov (n + 2) st log) := by
   unfold chainStep
   cases hs : st.stack with
   | nil => exact hs
@@ -316,7 +553,7 @@ theorem chainStep_post (hidem : AddIdem O) (htable : ∀ id e, table id = some e
           · subst h; exact Or.inl hvm
           · exact Or.inr h
       exact {
-        rootIn := hinv.rootIn, mapOK := hinv.mapOK,
+        rootIn := hinv.rootIn, mapOK := hinv.mapOK, nilOK := hinv.nilOK,
         pending := fun id e h => lift e (hinv.pending id e h),
         stackOK := fun e he => hinv.stackOK e (by rw [hs]; exact List.mem_cons_of_mem _ he),
         verifiedOK := fun id hid => by
@@ -324,7 +561,7 @@ theorem chainStep_post (hidem : AddIdem O) (htable : ∀ id e, table id = some e
           exact ⟨e, h1, h2, fun aid ha a hra => lift a (h3 aid ha a hra)⟩,
         rootSeen := lift root hinv.rootSeen }
     · simp only [hv, Bool.false_eq_true, if_false]
-      rcases fetchNeeded_table table errs (needOf st.m curr) log with ⟨herr, hf⟩ | ⟨hok, log1, hf⟩
+      rcases fetchNeeded_table table errs htl htable (needOf st.m curr) log with ⟨herr, hf⟩ | ⟨hok, es, log1, hf, hes⟩
       · -- the provider failed on a needed ID
         rw [hf]
         simp only [StepPost]
@@ -349,12 +586,17 @@ theorem chainStep_post (hidem : AddIdem O) (htable : ∀ id e, table id = some e
         rfl
       · rw [hf]
         simp only
-        obtain ⟨m2, log2, hc, hext⟩ := checkAllowed_contract O hidem (some (tableProvider table errs))
-          (tableProvider_ok table errs htable) n curr (putAll ((needOf st.m curr).filterMap table) st.m) log1
+        have hprov := tableLike_ok table errs htl htable
+        have hstep : ∀ ae m acc log, retryAE O (some prov) ae (n + 2) m acc log = stepC O (some prov) ae m acc log :=
+          fun ae m acc log => retryAE_eq_stepC O hidem (some prov) hprov ae n m acc log
+        obtain ⟨m2, calls, hc, hext⟩ := checkAllowed_contract O hidem (some prov) hprov n curr (putAll es st.m) []
+        obtain ⟨hcalls1, hcalls2⟩ := checkAllowed_calls O prov (n + 2) hstep curr (putAll es st.m)
+        rw [hc] at hcalls1 hcalls2
+        simp only at hcalls1 hcalls2
         rw [hc]
-        obtain ⟨hiff, hnf⟩ := verdict_iff_chainGood O root table errs htable st hinv curr hok
-        have hl := fetched_lookup table htable st.m (needOf st.m curr)
-        cases hver : caVerdict O (some (tableProvider table errs)) curr (putAll ((needOf st.m curr).filterMap table) st.m) with
+        obtain ⟨hiff, hnf⟩ := verdict_iff_chainGood O root table errs htl htable st hinv curr hok es hes
+        have hl := putAll_lookup table es (fun e he => (hes.fromTable e he).2) st.m
+        cases hver : caVerdict O (some prov) curr (putAll es st.m) with
         | outOfFuel => exact absurd hver hnf
         | notAllowed =>
           simp only [StepPost]
@@ -371,6 +613,7 @@ theorem chainStep_post (hidem : AddIdem O) (htable : ∀ id e, table id = some e
         | ok =>
           simp only [StepPost]
           have hgood := hiff.mp hver
+          rw [hver] at hcalls2
           -- facts about the needed IDs
           have need_facts : ∀ id, id ∈ needOf st.m curr → id ∈ curr.authEventIDs ∧ id ≠ root.eventID ∧ errs id = false ∧
               chainResolve root table id = table id := by
@@ -393,46 +636,124 @@ theorem chainStep_post (hidem : AddIdem O) (htable : ∀ id e, table id = some e
             unfold isNilIn at this
             rw [he] at this
             cases this
+          -- an ID of `curr` that the map after the fetch does not bind was needed
+          have absent_need : ∀ id, id ∈ curr.authEventIDs → (putAll es st.m).lookup id = none →
+              id ∈ needOf st.m curr ∧ st.m.lookup id = none := by
+            intro id hid h1
+            rw [hl id] at h1
+            by_cases hany : es.any (fun e => e.eventID == id) = true
+            · simp only [hany, if_true] at h1
+              obtain ⟨e, he, heid⟩ := List.any_eq_true.mp hany
+              have heid' : e.eventID = id := by simpa using heid
+              rw [← heid', (hes.fromTable e he).2] at h1
+              cases h1
+            · simp only [hany, Bool.false_eq_true, if_false] at h1
+              have hnil : isNilIn st.m id = true := by unfold isNilIn; rw [h1]
+              exact ⟨by unfold needOf; exact List.mem_filter.mpr ⟨hid, hnil⟩, h1⟩
           -- entries of the map after the fetch
-          have m1_some : ∀ id e, (putAll ((needOf st.m curr).filterMap table) st.m).lookup id = some (some e) →
-              st.m.lookup id = some (some e) ∨ (id ∈ needOf st.m curr ∧ table id = some e) := by
+          have m1_some : ∀ id e, (putAll es st.m).lookup id = some (some e) →
+              st.m.lookup id = some (some e) ∨ (e ∈ es ∧ id ∈ needOf st.m curr ∧ table id = some e) := by
             intro id e h
             rw [hl id] at h
-            by_cases hin : id ∈ needOf st.m curr
-            · simp only [hin, if_true] at h
-              cases ht : table id with
-              | none => rw [ht] at h; exact Or.inl h
-              | some e' => rw [ht] at h; cases h; exact Or.inr ⟨hin, rfl⟩
-            · simp only [hin, if_false] at h
+            by_cases hany : es.any (fun e => e.eventID == id) = true
+            · simp only [hany, if_true] at h
+              obtain ⟨x, hx, hxid⟩ := List.any_eq_true.mp hany
+              have hxid' : x.eventID = id := by simpa using hxid
+              have hxt := (hes.fromTable x hx)
+              rw [hxid'] at hxt
+              rw [hxt.2] at h
+              simp only [Option.map_some, Option.some.injEq] at h
+              subst h
+              exact Or.inr ⟨hx, hxt.1, hxt.2⟩
+            · simp only [hany, Bool.false_eq_true, if_false] at h
               exact Or.inl h
-          -- new non-nil entries cannot appear during checkAllowed
+          have m1_nil : ∀ id, (putAll es st.m).lookup id = some none → st.m.lookup id = some none := by
+            intro id h
+            rw [hl id] at h
+            by_cases hany : es.any (fun e => e.eventID == id) = true
+            · simp only [hany, if_true] at h
+              obtain ⟨x, hx, hxid⟩ := List.any_eq_true.mp hany
+              have hxid' : x.eventID = id := by simpa using hxid
+              rw [← hxid', (hes.fromTable x hx).2] at h
+              cases h
+            · simp only [hany, Bool.false_eq_true, if_false] at h
+              exact h
+          -- what the single-ID retries handed out
+          have retried : ∀ id e, id ∈ needOf st.m curr → (putAll es st.m).lookup id = none → table id = some e →
+              e ∈ handedOut prov calls := by
+            intro id e hin h1 ht
+            obtain ⟨hauth, _, herrs, _⟩ := need_facts id hin
+            rw [mem_handedOut]
+            refine ⟨[id], [e], hcalls2 rfl id hauth h1, ?_, List.mem_singleton.mpr rfl⟩
+            rw [htl.single id herrs, ht]
+          have handed_facts : ∀ x, x ∈ handedOut prov calls → ∃ id, id ∈ needOf st.m curr ∧ table id = some x := by
+            intro x hx
+            rw [mem_handedOut] at hx
+            obtain ⟨ids, xs, hcall, hp, hxin⟩ := hx
+            obtain ⟨id, hid, hceq, hnone⟩ := hcalls1 _ hcall
+            cases hceq
+            obtain ⟨hin, _⟩ := absent_need id hid hnone
+            obtain ⟨_, _, herrs, _⟩ := need_facts id hin
+            rw [htl.single id herrs] at hp
+            cases ht : table id with
+            | none => rw [ht] at hp; cases hp; cases hxin
+            | some e =>
+              rw [ht] at hp
+              cases hp
+              have : x = e := by simpa using hxin
+              subst this
+              exact ⟨id, hin, ht⟩
+          -- new entries of the map after checkAllowed
           have m2_some : ∀ id e, m2.lookup id = some (some e) →
-              (putAll ((needOf st.m curr).filterMap table) st.m).lookup id = some (some e) := by
+              (putAll es st.m).lookup id = some (some e) ∨
+              (id ∈ needOf st.m curr ∧ (putAll es st.m).lookup id = none ∧ table id = some e) := by
             intro id e h
             rcases hext.new id (some e) h with h1 | ⟨h1, hp, hd⟩
-            · exact h1
-            · exfalso
-              rw [hl id] at h1
-              have hprov := provided_table table errs id
-              by_cases hin : id ∈ needOf st.m curr
-              · simp only [hin, if_true] at h1
-                obtain ⟨_, _, herrs, _⟩ := need_facts id hin
-                cases ht : table id with
-                | some e' => rw [ht] at h1; cases h1
+            · exact Or.inl h1
+            · right
+              obtain ⟨hin, _⟩ := absent_need id hd h1
+              obtain ⟨_, _, herrs, _⟩ := need_facts id hin
+              refine ⟨hin, h1, ?_⟩
+              rw [provided_table table errs htl, herrs] at hp
+              cases ht : table id with
+              | none => rw [ht] at hp; cases hp
+              | some e' =>
+                rw [ht] at hp
+                simp only [Bool.false_eq_true, if_false] at hp
+                split at hp
+                · cases hp; rfl
+                · cases hp
+          have m2_nil : ∀ id, m2.lookup id = some none → table id = none := by
+            intro id h
+            rcases hext.new id none h with h1 | ⟨h1, hp, hd⟩
+            · exact hinv.nilOK id (m1_nil id h1)
+            · obtain ⟨hin, _⟩ := absent_need id hd h1
+              obtain ⟨_, _, herrs, _⟩ := need_facts id hin
+              rw [provided_table table errs htl, herrs] at hp
+              cases ht : table id with
+              | none => rfl
+              | some e' =>
+                exfalso
+                rw [ht] at hp
+                simp only [Bool.false_eq_true, if_false] at hp
+                cases hs : e'.stateKey with
+                | some sk => simp [hs] at hp
                 | none =>
-                  rw [herrs, ht] at hprov
-                  rw [hprov] at hp
-                  cases hp
-              · simp only [hin, if_false] at h1
-                have hnil : isNilIn st.m id = true := by unfold isNilIn; rw [h1]
-                exact hin (by unfold needOf; exact List.mem_filter.mpr ⟨hd, hnil⟩)
-          have new_mem : ∀ id e, id ∈ needOf st.m curr → table id = some e → e ∈ ((needOf st.m curr).filterMap table).reverse ++ rest := by
-            intro id e hin ht
-            apply List.mem_append_left
-            rw [List.mem_reverse, List.mem_filterMap]
-            exact ⟨id, hin, ht⟩
+                  -- an event without a state key is never left out of a batch answer
+                  have hin_es := hes.nonstate id hin e' ht (by simp [hs])
+                  have := hl id
+                  have hany : es.any (fun e => e.eventID == id) = true :=
+                    List.any_eq_true.mpr ⟨e', hin_es, by simp [htable id e' ht]⟩
+                  rw [h1] at this
+                  simp [hany, ht] at this
+          have on_stack : ∀ x, x ∈ es ∨ x ∈ handedOut prov calls →
+              x ∈ (handedOut prov calls).reverse ++ es.reverse ++ rest := by
+            intro x hx
+            rcases hx with h | h
+            · exact List.mem_append_left _ (List.mem_append_right _ (List.mem_reverse.mpr h))
+            · exact List.mem_append_left _ (List.mem_append_left _ (List.mem_reverse.mpr h))
           have lift : ∀ x : Event, (x.eventID ∈ st.verified ∨ x ∈ st.stack) →
-              (x.eventID ∈ curr.eventID :: st.verified ∨ x ∈ ((needOf st.m curr).filterMap table).reverse ++ rest) := by
+              (x.eventID ∈ curr.eventID :: st.verified ∨ x ∈ (handedOut prov calls).reverse ++ es.reverse ++ rest) := by
             intro x hx
             rcases hx with h | h
             · exact Or.inl (List.mem_cons_of_mem _ h)
@@ -444,25 +765,43 @@ theorem chainStep_post (hidem : AddIdem O) (htable : ∀ id e, table id = some e
             rootIn := by
               apply hext.keep
               rw [hl root.eventID]
-              have : root.eventID ∉ needOf st.m curr := not_need _ _ hinv.rootIn
-              simp only [this, if_false]
+              have hany : es.any (fun e => e.eventID == root.eventID) = false := by
+                rw [List.any_eq_false]
+                intro x hx heq
+                have : x.eventID = root.eventID := by simpa using heq
+                have hxn := (hes.fromTable x hx).1
+                rw [this] at hxn
+                exact not_need _ _ hinv.rootIn hxn
+              simp only [hany, Bool.false_eq_true, if_false]
               exact hinv.rootIn,
             mapOK := fun id e h => by
-              rcases m1_some id e (m2_some id e h) with h1 | ⟨hin, ht⟩
-              · exact hinv.mapOK id e h1
+              rcases m2_some id e h with h1 | ⟨hin, _, ht⟩
+              · rcases m1_some id e h1 with h0 | ⟨_, hin, ht⟩
+                · exact hinv.mapOK id e h0
+                · obtain ⟨_, _, herrs, hres⟩ := need_facts id hin
+                  exact ⟨by rw [hres]; exact ht, Or.inr herrs⟩
               · obtain ⟨_, _, herrs, hres⟩ := need_facts id hin
                 exact ⟨by rw [hres]; exact ht, Or.inr herrs⟩,
+            nilOK := m2_nil,
             pending := fun id e h => by
-              rcases m1_some id e (m2_some id e h) with h1 | ⟨hin, ht⟩
-              · exact lift e (hinv.pending id e h1)
-              · exact Or.inr (new_mem id e hin ht),
+              rcases m2_some id e h with h1 | ⟨hin, hnone, ht⟩
+              · rcases m1_some id e h1 with h0 | ⟨hx, _, _⟩
+                · exact lift e (hinv.pending id e h0)
+                · exact Or.inr (on_stack e (Or.inl hx))
+              · exact Or.inr (on_stack e (Or.inr (retried id e hin hnone ht))),
             stackOK := fun e he => by
-              rcases List.mem_append.mp he with h | h
-              · rw [List.mem_reverse, List.mem_filterMap] at h
-                obtain ⟨id, hin, ht⟩ := h
+              have from_need : ∀ id, id ∈ needOf st.m curr → table id = some e →
+                  chainResolve root table e.eventID = some e ∧ Reach root table e := by
+                intro id hin ht
                 obtain ⟨hauth, _, _, hres⟩ := need_facts id hin
                 have hr : chainResolve root table id = some e := by rw [hres]; exact ht
                 exact ⟨chainResolve_self root table htable hr, Reach.step hcurr.2 hauth hr⟩
+              rcases List.mem_append.mp he with h | h
+              · rcases List.mem_append.mp h with h | h
+                · obtain ⟨id, hin, ht⟩ := handed_facts e (List.mem_reverse.mp h)
+                  exact from_need id hin ht
+                · have hx := hes.fromTable e (List.mem_reverse.mp h)
+                  exact from_need e.eventID hx.1 hx.2
               · exact hinv.stackOK e (by rw [hs]; exact List.mem_cons_of_mem _ h),
             verifiedOK := fun id hid => by
               rcases List.mem_cons.mp hid with h | h
@@ -471,7 +810,20 @@ theorem chainStep_post (hidem : AddIdem O) (htable : ∀ id e, table id = some e
                 by_cases hin : aid ∈ needOf st.m curr
                 · obtain ⟨_, _, _, hres⟩ := need_facts aid hin
                   rw [hres] at hra
-                  exact Or.inr (new_mem aid a hin hra)
+                  -- `a` came with the batch, or the retry fetched it
+                  cases hlk : (putAll es st.m).lookup aid with
+                  | none => exact Or.inr (on_stack a (Or.inr (retried aid a hin hlk hra)))
+                  | some v =>
+                    cases v with
+                    | none =>
+                      have := hinv.nilOK aid (m1_nil aid hlk)
+                      rw [this] at hra; cases hra
+                    | some a' =>
+                      rcases m1_some aid a' hlk with h0 | ⟨hx, _, ht⟩
+                      · exact absurd hin (not_need aid a' h0)
+                      · rw [hra] at ht
+                        cases ht
+                        exact Or.inr (on_stack a (Or.inl hx))
                 · have hnil : isNilIn st.m aid = false := by
                     cases hc : isNilIn st.m aid
                     · rfl
@@ -513,15 +865,15 @@ def LoopPost : ChainOut → Prop
   | .provErr => ∃ e, Reach root table e ∧ chainGood O root table errs e = false
   | .authFail => ∃ e, Reach root table e ∧ chainGood O root table errs e = false
 
-theorem chainLoop_post (hidem : AddIdem O) (htable : ∀ id e, table id = some e → e.eventID = id) (n fuel : Nat)
-    (st : ChainSt) (log : Log) (hinv : ChainInv O root table errs st) :
-    LoopPost O root table errs (chainLoop O (tableProvider table errs) (n + 2) fuel st log).1 := by
+theorem chainLoop_post (hidem : AddIdem O) (htl : TableLike table errs prov) (htable : ∀ id e, table id = some e → e.eventID = id)
+    (n fuel : Nat) (st : ChainSt) (log : Log) (hinv : ChainInv O root table errs st) :
+    LoopPost O root table errs (chainLoop O prov (n + 2) fuel st log).1 := by
   induction fuel generalizing st log with
   | zero => simp [chainLoop, LoopPost]
   | succ k ih =>
     unfold chainLoop
-    have hp := chainStep_post O root table errs hidem htable n st log hinv
-    cases hc : chainStep O (tableProvider table errs) (n + 2) st log with
+    have hp := chainStep_post O root table errs hidem htl htable n st log hinv
+    cases hc : chainStep O prov (n + 2) st log with
     | done r lg =>
       rw [hc] at hp
       simp only
